@@ -81,6 +81,18 @@ def atom(draw, depth: int = 1):
         if draw(st.integers(0, 4)) == 0:
             return ("cmp", op, lit, col)
         return ("cmp", op, col, lit)
+    if k == 8:
+        # COALESCE compared with a constant: 1-3 non-constant arguments, then a constant (or NULL, then a constant), either side --
+        # the shape simplify_coalesce rewrites into (args IS [NOT] NULL AND ...) OR (...)
+        args = [("col", draw(st.sampled_from(INT_COLS))) for _ in range(draw(st.integers(1, 3)))]
+        if draw(st.integers(0, 4)) == 0:
+            args.append(("null",))
+        args.append(_lit(draw))
+        if draw(st.integers(0, 3)) == 0:
+            args.append(_lit(draw))
+        co = ("coalesce", args)
+        op = draw(st.sampled_from(CMP))
+        return ("cmp", op, _lit(draw), co) if draw(st.integers(0, 2)) == 0 else ("cmp", op, co, _lit(draw))
     if k < 10:
         return ("cmp", draw(st.sampled_from(CMP)), draw(int_expr(depth)), draw(int_expr(depth)))
     if k == 10:
